@@ -123,12 +123,24 @@ type cmpResult struct {
 	MaxRel           float64
 	Bad              *mismatch
 	NBad             int
+	// BadFinite counts mismatching positions whose actual value is finite;
+	// FirstBadK / FirstIllK are the smallest output index with a mismatch /
+	// with an ill-conditioned reference value (-1 if none).
+	BadFinite            int
+	FirstBadK, FirstIllK int
+}
+
+// poisoned reports the "non-finite for good" signature: every mismatching
+// value is NaN/Inf and the first of them does not precede the first position
+// at which the formula itself is ill-conditioned.
+func (r cmpResult) poisoned() bool {
+	return r.NBad > 0 && r.BadFinite == 0 && r.FirstIllK >= 0 && r.FirstBadK >= r.FirstIllK
 }
 
 // compareRef compares actual outputs with a reference over the overlap of
 // positions (lengths are C02's business).
 func compareRef(ind *reg.Indicator, w int, inputs [][]float64, actual [][]float64, ref [][]reg.RV) cmpResult {
-	var res cmpResult
+	res := cmpResult{FirstBadK: -1, FirstIllK: -1}
 	sc := newScaler(ind, inputs)
 	for j := range ref {
 		if j >= len(actual) {
@@ -146,6 +158,9 @@ func compareRef(ind *reg.Indicator, w int, inputs [][]float64, actual [][]float6
 			rv := ref[j][k]
 			if rv.Ill || math.IsNaN(rv.V) || math.IsInf(rv.V, 0) {
 				res.Exempt++
+				if res.FirstIllK < 0 || k < res.FirstIllK {
+					res.FirstIllK = k
+				}
 				continue
 			}
 			a := actual[j][k]
@@ -155,6 +170,12 @@ func compareRef(ind *reg.Indicator, w int, inputs [][]float64, actual [][]float6
 			diff := math.Abs(a - rv.V)
 			if !(diff <= tol) { // also catches NaN
 				res.NBad++
+				if !math.IsNaN(a) && !math.IsInf(a, 0) {
+					res.BadFinite++
+				}
+				if res.FirstBadK < 0 || k < res.FirstBadK {
+					res.FirstBadK = k
+				}
 				if res.Bad == nil {
 					res.Bad = &mismatch{Output: j, K: k, Actual: a, Expected: rv.V, Tol: tol,
 						ActualS: fmt.Sprintf("%.17g", a), ExpectS: fmt.Sprintf("%.17g", rv.V)}
